@@ -993,6 +993,24 @@ func fixParamTypeRef(mod *sysl.Module, app *sysl.Application, appName string) {
 	}
 }
 
+func sortedTypeNames(m map[string]*sysl.Type) []string {
+	names := make([]string, 0, len(m))
+	for k := range m {
+		names = append(names, k)
+	}
+	sort.Strings(names)
+	return names
+}
+
+func sortedViewNames(m map[string]*sysl.View) []string {
+	names := make([]string, 0, len(m))
+	for k := range m {
+		names = append(names, k)
+	}
+	sort.Strings(names)
+	return names
+}
+
 func (p *Parser) postProcess(mod *sysl.Module) { // nolint:funlen
 	appNames := make([]string, 0, len(mod.Apps))
 	for a := range mod.Apps {
@@ -1000,44 +1018,75 @@ func (p *Parser) postProcess(mod *sysl.Module) { // nolint:funlen
 	}
 	sort.Strings(appNames)
 
+	// An application takes the types and views of the applications it mixes in and, through them,
+	// of the applications those mix in. What is copied is what each application declares itself
+	// (ownTypes/ownViews, taken before anything is mixed in), so the result depends neither on the
+	// order in which the applications are visited nor on whether the module has been through
+	// here before (a compiled model that is compiled again gains nothing).
+	ownTypes := map[string]map[string]*sysl.Type{}
+	ownViews := map[string]map[string]*sysl.View{}
+	for _, appName := range appNames {
+		app := mod.Apps[appName]
+		if app.Types != nil {
+			types := make(map[string]*sysl.Type, len(app.Types))
+			for k, v := range app.Types {
+				types[k] = v
+			}
+			ownTypes[appName] = types
+		}
+		if app.Views != nil {
+			views := make(map[string]*sysl.View, len(app.Views))
+			for k, v := range app.Views {
+				views[k] = v
+			}
+			ownViews[appName] = views
+		}
+	}
+	var mixIn func(appName string, app, via *sysl.Application, seen map[string]bool)
+	mixIn = func(appName string, app, via *sysl.Application, seen map[string]bool) {
+		for _, src := range via.Mixin2 {
+			srcName := syslutil.GetAppName(src.Name)
+			if seen[srcName] {
+				continue
+			}
+			seen[srcName] = true
+			srcApp := syslutil.GetApp(src.Name, mod)
+			if srcApp == nil {
+				logrus.Warnf("mixin App (%s) not found", srcName)
+				continue
+			}
+			if !syslutil.HasPattern(srcApp.Attrs, "abstract") {
+				logrus.Warnf("mixin App (%s) should be ~abstract", srcName)
+			}
+			if ownTypes[srcName] != nil && app.Types == nil {
+				app.Types = map[string]*sysl.Type{}
+			}
+			if ownViews[srcName] != nil && app.Views == nil {
+				app.Views = map[string]*sysl.View{}
+			}
+			for _, k := range sortedTypeNames(ownTypes[srcName]) {
+				if _, has := app.Types[k]; !has {
+					app.Types[k] = ownTypes[srcName][k]
+				} else {
+					logrus.Warnf("Type %s defined in %s and in %s", k, appName, srcName)
+				}
+			}
+			for _, k := range sortedViewNames(ownViews[srcName]) {
+				if _, has := app.Views[k]; !has {
+					app.Views[k] = ownViews[srcName][k]
+				} else {
+					logrus.Warnf("View %s defined in %s and in %s", k, appName, srcName)
+				}
+			}
+			mixIn(appName, app, srcApp, seen)
+		}
+	}
+
 	for _, appName := range appNames {
 		app := mod.Apps[appName]
 		fixParamTypeRef(mod, app, appName)
 
-		if app.Mixin2 != nil {
-			for _, src := range app.Mixin2 {
-				srcApp := syslutil.GetApp(src.Name, mod)
-				if srcApp == nil {
-					logrus.Warnf("mixin App (%s) not found", syslutil.GetAppName(src.Name))
-					continue
-				}
-				if !syslutil.HasPattern(srcApp.Attrs, "abstract") {
-					logrus.Warnf("mixin App (%s) should be ~abstract", syslutil.GetAppName(src.Name))
-				}
-				if srcApp.Types != nil && app.Types == nil {
-					app.Types = map[string]*sysl.Type{}
-				}
-				if srcApp.Views != nil && app.Views == nil {
-					app.Views = map[string]*sysl.View{}
-				}
-				for k, v := range srcApp.Types {
-					if _, has := app.Types[k]; !has {
-						app.Types[k] = v
-					} else {
-						logrus.Warnf("Type %s defined in %s and in %s",
-							k, appName, syslutil.GetAppName(src.Name))
-					}
-				}
-				for k, v := range srcApp.Views {
-					if _, has := app.Views[k]; !has {
-						app.Views[k] = v
-					} else {
-						logrus.Warnf("View %s defined in %s and in %s",
-							k, appName, syslutil.GetAppName(src.Name))
-					}
-				}
-			}
-		}
+		mixIn(appName, app, app, map[string]bool{appName: true})
 
 		for typeName, types := range app.Types {
 			var attrs map[string]*sysl.Type
